@@ -1,8 +1,10 @@
 """C02 — An emission goes to the thread's scoped default, else to the global default.
 
-Leg A: coq/theories/Properties/C02.v (refinement to "scope stack per thread + write-once global cell" for every nested
-       history outside the F1 class, F1 refuted by its replay, thread frame, unwinding, set_global_default's micro-steps
-       under every interleaving) — or Properties/C02F.v (no F1 hypothesis) once the F1 state is "fixed".
+Leg A: coq/theories/Properties/C02.v: refinement to "scope stack per thread + write-once global cell" for EVERY nested
+       history, stated about `run src_fx` where src_fx is the dispatch.rs variant translators/dispatch_shape.py reads off
+       the source on every run (so reverting fix aa353f7 makes the file stop compiling); who receives an emission; thread
+       frame (state and observable); unwinding (specification and code state); set_global_default's micro-steps under every
+       interleaving and at call granularity; the refutation of the unrepaired variant (F1's replay) kept as a lemma.
 Leg B: correspondence, ONE PROCESS PER HISTORY (the global default can be set once per process): real OS threads,
        set_default guards, real panics unwinding through with_default, set_global_default at every position incl. never;
        implementation vs Dispatch/Model.v op by op; plus two cross-checks of the Coq side against this file:
@@ -296,13 +298,15 @@ def spec_rows_vs_coq(case, spec_rows, coq_spec):
 
 def run(ctx):
     rep = Report(ctx)
-    fx = D.f1_fixed()
-    pname = "C02F" if fx else "C02"
+    # ---- translator (every run): the model's dispatch.rs variant is read off the source, never from a state file
+    d, g = D.translate(ctx, rep, guard_too=False)
+    fx = D.model_fx(d)
     rep.rule = ("seeded histories (6-36 ops, 1-4 real threads, 2-5 collectors, set_global_default at every position incl. never and "
                 "repeated, nested scopes incl. Dispatch::none scopes, real panics unwinding through with_default), one process per "
                 "history. non-trivial = an emission/query after a guard drop or unwinding, or a set_global_default after the first "
                 "scoped use / emission; distinct = distinct op list + filters")
     rep.trusted_base = ["Coq 8.16.1 kernel + vm_compute", "harness/dispatch h_dispatch.rs (one OS thread per model thread, one process per history)",
+                        "translators/dispatch_shape.py + rsparse.py (shape recognition of dispatch.rs; fails closed through C02_source_recognised)",
                         "driver/props/c02.py generator + the Python specification (cross-checked against Model.aspec on every case)",
                         "std: thread_local!, Arc, atomics under sequential consistency, drop order / unwinding (modelled)"]
     rep.assumptions = ["every API call is atomic except set_global_default, whose three micro-steps are modelled separately (C02_set_global_once); "
@@ -310,10 +314,12 @@ def run(ctx):
                        "properly nested = guards dropped innermost-first on the thread that created them (DefaultGuard is Send; "
                        "dropping it elsewhere or out of order is outside the property, the tie still covers out-of-order drops)",
                        "collector callbacks do not emit (can_enter / re-entrancy not modelled); try_with failure during thread teardown not modelled",
-                       "model variant: " + ("dispatch.rs AFTER fixes/F1.patch (Properties/C02F.v pinned)" if fx else
-                                            "dispatch.rs as in /repo, F1 present (Properties/C02.v pinned; C02_spec carries ~F1_class)")]
+                       "dispatch.rs variant read off the source on this run: " + {True: "repaired (fix aa353f7): the thread-local is never populated from the global default",
+                                                                                   False: "the shape from before fix aa353f7 (finding F1): C02_spec is false for it and does not compile",
+                                                                                   None: "UNRECOGNISED mixture (fail closed)"}[d["fx"]]]
     # ---- leg A
-    rep.proof = coq_prove(ctx, pname, ["theories/Properties/%s.vo" % pname, "theories/Properties/C02.vo", "theories/Properties/C02F.vo"])
+    rep.proof = coq_prove(ctx, "C02", ["theories/Properties/C02.vo"])
+    D.check_source_summary(ctx, rep, d, g)
     # ---- implementation
     binpath, info = D.build(ctx, rep)
     if binpath is None:
@@ -324,7 +330,7 @@ def run(ctx):
         cases["replay"] = D.load_replay(ctx.replay)
     else:
         cases.update(D.load_corpus("C02"))
-        n = 3000 if not ctx.thorough() else 25000
+        n = 6000 if not ctx.thorough() else 25000
         for i in range(n):
             malformed = (i % 8 == 7)
             cases[("m%d" if malformed else "g%d") % i] = gen_case(ctx.rng, pool, malformed)
@@ -335,7 +341,7 @@ def run(ctx):
             extra = {"release:%s%d" % ("m" if i % 8 == 7 else "g", i): gen_case(ctx.rng, pool, i % 8 == 7) for i in range(5000)}
             explore(ctx, rep, fx, "release", b2, info2["pool"], info2["static_max"], extra)
     some = list(good.values())[:2]
-    rep.samples = [{"history": D.case_text(c).splitlines()} for c in some] + [{"f1_state": "fixed" if fx else "unfixed"}]
+    rep.samples = [{"history": D.case_text(c).splitlines()} for c in some] + [{"dispatch_rs_variant_read_off_source": d["fx"]}]
     return rep
 
 
